@@ -44,7 +44,7 @@ func hAlias() {
 		op, spec, spare := vpParam(3+3*i), vpParam(3+3*i+1), vpParam(3+3*i+2)
 		var content []byte
 		if kind == 15 {
-			content = []byte(collUniverse[ce.define(spec)])
+			content = []byte(collString(ce.define(spec)))
 		} else {
 			content = vpBytes(spec & 15)
 		}
